@@ -158,6 +158,13 @@ def run(ctx):
                 for ms in (2**31 - 1, 2**31, -2**31, -2**31 - 1, 2**51 + 1, 2**53 + 1, 2**63 - 1 if False else 86399999999999):
                     vals.append(("dur", ms * 1000))
                 vals += [("dur", us) for us in (1, 499, 500, 501, 1500, 2500, -500, -1500, 999, -1)]
+                # exact half-millisecond ties at many magnitudes, both signs: where a float detour rounds the wrong way
+                top = 2**31 if base == "timedelta_i32" else 2**53
+                for _ in range(150 if tier == "quick" else 3000):
+                    k = gen.r.choice([gen.r.randrange(0, 5000), gen.r.randrange(0, 2**22), gen.r.randrange(0, top - 1)])
+                    vals.append(("dur", gen.r.choice([1, -1]) * (k * 1000 + 500)))
+                    if gen.r.random() < 0.2:
+                        vals.append(("dur", gen.r.choice([1, -1]) * (k * 1000 + gen.r.choice([499, 501, 1, 999]))))
             if base == "datetime_i64":
                 vals += [("time", us) for us in (0, 1, 500, 1500, 2500, 999999, 253402300799999000, 253402300799999999)]
             for v in vals:
